@@ -640,6 +640,9 @@ class Bits:
 
     def _setbytes(self, data: Union[bytearray, bytes, List], length:None = None) -> None:
         """Set the data from a bytes or bytearray object."""
+        if isinstance(data, numbers.Integral):
+            # bytes(n) would give n zero bytes, which isn't what anyone means by a bytes value of n.
+            raise TypeError(f"A bytes-like object is needed for a bytes initialiser, not the integer {data}.")
         self._bitstore = BitStore.frombytes(bytes(data))
 
     def _setbytes_with_truncation(self, data: Union[bytearray, bytes], length: Optional[int] = None, offset: Optional[int] = None) -> None:
